@@ -6,11 +6,13 @@ package ippool
 
 import (
 	"context"
+	"fmt"
 
 	v3 "github.com/projectcalico/api/pkg/apis/projectcalico/v3"
 	"github.com/projectcalico/api/pkg/client/clientset_generated/clientset"
 	metav1 "k8s.io/apimachinery/pkg/apis/meta/v1"
 	"k8s.io/client-go/tools/cache"
+	"k8s.io/client-go/util/workqueue"
 
 	"github.com/projectcalico/calico/libcalico-go/lib/ipam"
 )
@@ -41,4 +43,26 @@ func (c *IPPoolController) VerifReconcile() error { return c.reconcile() }
 func VerifSetCondition(p *v3.IPPool, c metav1.Condition) bool { return setConditionOnPool(p, c) }
 func VerifHasCondition(p *v3.IPPool, t string, s metav1.ConditionStatus) bool {
 	return hasCondition(p, t, s)
+}
+
+type verifQueue struct {
+	workqueue.TypedRateLimitingInterface[string]
+	adds, forgets, requeues int
+}
+
+func (f *verifQueue) AddRateLimited(item string)  { f.adds++ }
+func (f *verifQueue) Forget(item string)          { f.forgets++ }
+func (f *verifQueue) NumRequeues(item string) int { return f.requeues }
+
+// VerifHandleErr runs the real handleErr for the single work item with the given reconcile result and requeue count and
+// reports how often the item was re-added (rate limited) and forgotten.
+func VerifHandleErr(failed bool, requeues int) (int, int) {
+	q := &verifQueue{requeues: requeues}
+	c := &IPPoolController{queue: q}
+	var err error
+	if failed {
+		err = fmt.Errorf("reconcile failed")
+	}
+	c.handleErr(err, reconcileKey)
+	return q.adds, q.forgets
 }
